@@ -4007,4 +4007,461 @@ example : (match (parseStatement 200).run (PState.init exTagValuesStmt.print [] 
     | .ok _ => true
     | .error _ => false) = true := by decide +kernel
 
+/-! ### the same families with conditions of the wide class
+
+`Printable` excludes calls, number and duration literals in conditions (`time > now() - 1h`). C03's wide class
+(`RT.wOK tbl`, `CondOKW`) covers them; it depends on the lower-casing table of the parser state *at the WHERE
+clause*. The clause parsers before it do not change the table (`tot_frame`: C04's totality contracts), given
+the ring invariant at the start (`Fr s`, true of `PState.init`: `Fr.init`). -/
+
+/-- `showTagValues_print_parse_partial` with a condition of the wide class. -/
+theorem showTagValues_print_parse_wide_partial (fuel : Nat) (s : PState) (db : Str) (qs : List (Str × Str × Str)) (op : Token)
+    (key : Expr) (c : Option Expr) (sf : List SortField) (l o : Int) (k : Str)
+    (hexdb : Expressible db) (hq : ∀ m ∈ qs, QualOK m) (hkey : tagKeyOKB op key = true)
+    (hg : Fr s) (hc : CondOKW s.lowerTbl c)
+    (hsf : sortOKB sf = true)
+    (hl : 0 ≤ l ∧ l ≤ maxInt64) (ho : 0 ≤ o ∧ o ≤ maxInt64) (hk : Follow k showStop)
+    (hs : s.Before (showTagValuesText db qs op key c sf l o ++ k)) :
+    wp (runHandler fuel .parseShowTagValuesStatement) s
+      (fun st s' => st = .showTagValues db (qs.map qualSrc) op (some key) c sf l o ∧ RT.Stand s' k) (· = .fuel) := by
+  obtain ⟨g4, g3, gO, g2⟩ := showOrder_follow c sf l o k hk
+  have gW : Follow (withKeyText op key ++ (whereText c ++ (orderText sf ++ (posText .LIMIT l ++ (posText .OFFSET o ++ k)))))
+      [.EXACT, .CARDINALITY, .ON, .FROM, .COMMA] :=
+    Follow.opt (kwText_withKey op key) (by decide +kernel) rfl (by decide) (g2.mono (by decide))
+  have gF : Follow (fromQualsText qs ++ (withKeyText op key ++ (whereText c ++ (orderText sf ++ (posText .LIMIT l ++ (posText .OFFSET o ++ k))))))
+      [.EXACT, .CARDINALITY, .ON] :=
+    Follow.opt (kwText_fromQuals _) (by decide +kernel) rfl (by decide) (gW.mono (by decide))
+  have g0 : Follow (onDbText db ++ (fromQualsText qs ++ (withKeyText op key ++ (whereText c ++ (orderText sf ++ (posText .LIMIT l ++
+      (posText .OFFSET o ++ k))))))) [.EXACT, .CARDINALITY] :=
+    Follow.opt (kwText_onDb _) (by decide +kernel) rfl (by decide) (gF.mono (by decide))
+  have hs0 : RT.Stand s (onDbText db ++ (fromQualsText qs ++ (withKeyText op key ++ (whereText c ++ (orderText sf ++ (posText .LIMIT l ++
+      (posText .OFFSET o ++ k))))))) := by
+    have := hs.stand
+    simpa only [showTagValuesText, List.append_assoc] using this
+  obtain ⟨_, T, hT, _, hnot⟩ := g0
+  obtain ⟨lx, s1, h1, t1, st1, _⟩ := RT.scanIW_starts s _ T hs0 hT
+  have hne1 : ¬ lx.tok = .EXACT := by rw [t1]; intro e; exact hnot (by rw [e]; simp)
+  have hne2 : ¬ lx.tok = .CARDINALITY := by rw [t1]; intro e; exact hnot (by rw [e]; simp)
+  obtain ⟨f1, m1⟩ := peek_frame .EXACT h1 hne1 hg
+  obtain ⟨s3, h3, st3⟩ := parseOnDb_stand (unsc s1) db _ hexdb (gF.mono (by decide)) st1
+  obtain ⟨f3, m3⟩ := tot_frame (fun _ => parseOnDb_tot) h3 f1
+  obtain ⟨s4, h4, st4⟩ := parseOptFrom_quals s3 qs _ hq (gW.mono (by decide)) st3
+  obtain ⟨f4, m4⟩ := tot_frame (fun _ => parseOptFrom_tot) h4 f3
+  obtain ⟨s5, h5, b5⟩ := parseTagKeyExpr_print s4 op key _ hkey g2.tokEnd.1 st4
+  obtain ⟨_, m5⟩ := tot_frame (fun _ => parseTagKeyExpr_tot) h5 f4
+  have hc5 : CondOKW s5.lowerTbl c := by rw [(((m1.trans m3).trans m4).trans m5).2]; exact hc
+  simp only [runHandler, parseShowTagValues]
+  rw [wp_bind, wp_of_run_ok h1]
+  simp only [hne1, hne2, if_false]
+  rw [wp_bind, unscan_wp, wp_bind, wp_of_run_ok h3, wp_bind, wp_of_run_ok h4, wp_bind, wp_of_run_ok h5]
+  dsimp only
+  rw [wp_bind]
+  refine wp_mono (parseCondition_printW fuel s5 c _ hc5 (gO.mono (by decide)) b5.stand) ?_ (fun _ h => h)
+  intro c' s6 ⟨hc', st6, _⟩
+  subst hc'
+  obtain ⟨s7, h7, st7⟩ := parseOrderBy_print s6 sf _ hsf (g3.mono (by decide)) st6
+  obtain ⟨s8, h8, st8⟩ := parseOptTokInt_print .LIMIT (by decide +kernel) s7 l _ hl.1 hl.2 (g4.mono (by decide)) st7
+  obtain ⟨s9, h9, st9⟩ := parseOptTokInt_print .OFFSET (by decide +kernel) s8 o k ho.1 ho.2 (hk.mono (by decide)) st8
+  rw [wp_bind, wp_of_run_ok h7, wp_bind, wp_of_run_ok h8, wp_bind, wp_of_run_ok h9, wp_pure]
+  exact ⟨rfl, st9⟩
+
+/-- `showMeasurements_full_print_parse_partial` with a condition of the wide class. -/
+theorem showMeasurements_full_print_parse_wide_partial (fuel : Nat) (s : PState) (db rp : Str) (wdb wrp : Bool) (m : MeasSpec)
+    (c : Option Expr) (sf : List SortField) (l o : Int) (k : Str)
+    (hex1 : Expressible db) (hex2 : Expressible rp) (hon : OnMeasOK db rp wdb wrp) (hm : m.okB = true)
+    (hg : Fr s) (hc : CondOKW s.lowerTbl c)
+    (hsf : sortOKB sf = true)
+    (hl : 0 ≤ l ∧ l ≤ maxInt64) (ho : 0 ≤ o ∧ o ≤ maxInt64) (hk : Follow k showMeasStop)
+    (hs : s.Before (showMeasText db rp wdb wrp m c sf l o ++ k)) :
+    wp (runHandler fuel .parseShowMeasurementsStatement) s
+      (fun st s' => st = .showMeasurements db rp wdb wrp m.source c sf l o ∧ RT.Stand s' k) (· = .fuel) := by
+  have g4 : Follow (posText .OFFSET o ++ k) [.DOT, .ON, .WITH, .WHERE, .ORDER, .COMMA, .LIMIT] :=
+    Follow.opt (kwText_pos _ _) (by decide +kernel) rfl (by decide) (hk.mono (by decide))
+  have g3 : Follow (posText .LIMIT l ++ (posText .OFFSET o ++ k)) [.DOT, .ON, .WITH, .WHERE, .ORDER, .COMMA] :=
+    Follow.opt (kwText_pos _ _) (by decide +kernel) rfl (by decide) (g4.mono (by decide))
+  have gO : Follow (orderText sf ++ (posText .LIMIT l ++ (posText .OFFSET o ++ k))) [.DOT, .ON, .WITH, .WHERE] :=
+    Follow.opt (kwText_order _) (by decide +kernel) rfl (by decide) (g3.mono (by decide))
+  have g2 : Follow (whereText c ++ (orderText sf ++ (posText .LIMIT l ++ (posText .OFFSET o ++ k)))) [.DOT, .ON, .WITH] :=
+    Follow.opt (kwText_where _) (by decide +kernel) rfl (by decide) (gO.mono (by decide))
+  have g1 : Follow (withMeasText m ++ (whereText c ++ (orderText sf ++ (posText .LIMIT l ++ (posText .OFFSET o ++ k)))))
+      [.DOT, .ON] :=
+    Follow.opt (kwText_withMeas _) (by decide +kernel) rfl (by decide) (g2.mono (by decide))
+  have hs0 : RT.Stand s (onMeasText db rp wdb wrp ++ (withMeasText m ++ (whereText c ++ (orderText sf ++ (posText .LIMIT l ++
+      (posText .OFFSET o ++ k)))))) := by
+    have := hs.stand
+    simpa only [showMeasText, List.append_assoc] using this
+  obtain ⟨s1, h1, st1⟩ := parseOnMeas_print s db rp wdb wrp _ hex1 hex2 hon (g1.mono (by decide)) hs0
+  obtain ⟨f1, m1⟩ := tot_frame (fun _ => parseOnMeas_tot) h1 hg
+  obtain ⟨s2, h2, st2⟩ := parseWithMeas_print s1 m _ hm (g2.mono (by decide)) st1
+  obtain ⟨_, m2⟩ := tot_frame (fun _ => parseWithMeas_tot) h2 f1
+  have hc2 : CondOKW s2.lowerTbl c := by rw [(m1.trans m2).2]; exact hc
+  simp only [runHandler]
+  rw [parseShowMeasurements_eq, wp_bind, wp_of_run_ok h1]
+  dsimp only
+  rw [wp_bind, wp_of_run_ok h2, wp_bind]
+  refine wp_mono (parseCondition_printW fuel s2 c _ hc2 (gO.mono (by decide)) st2) ?_ (fun _ h => h)
+  intro c' s5 ⟨hc', st5, _⟩
+  subst hc'
+  obtain ⟨s6, h6, st6⟩ := parseOrderBy_print s5 sf _ hsf (g3.mono (by decide)) st5
+  obtain ⟨s7, h7, st7⟩ := parseOptTokInt_print .LIMIT (by decide +kernel) s6 l _ hl.1 hl.2 (g4.mono (by decide)) st6
+  obtain ⟨s8, h8, st8⟩ := parseOptTokInt_print .OFFSET (by decide +kernel) s7 o k ho.1 ho.2 (hk.mono (by decide)) st7
+  rw [wp_bind, wp_of_run_ok h6, wp_bind, wp_of_run_ok h7, wp_bind, wp_of_run_ok h8, wp_pure]
+  exact ⟨rfl, st8⟩
+
+/-- `showTagKeys_withKey_print_parse_partial` with a condition of the wide class. -/
+theorem showTagKeys_withKey_print_parse_wide_partial (fuel : Nat) (s : PState) (db : Str) (qs : List (Str × Str × Str)) (op : Token)
+    (key : Option Expr) (c : Option Expr) (sf : List SortField) (l o sl so : Int) (k : Str)
+    (hexdb : Expressible db) (hq : ∀ m ∈ qs, QualOK m) (hkey : optKeyOKB op key = true)
+    (hg : Fr s) (hc : CondOKW s.lowerTbl c)
+    (hsf : sortOKB sf = true)
+    (hl : 0 ≤ l ∧ l ≤ maxInt64) (ho : 0 ≤ o ∧ o ≤ maxInt64) (hsl : 0 ≤ sl ∧ sl ≤ maxInt64)
+    (hso : 0 ≤ so ∧ so ≤ maxInt64) (hk : Follow k showStop)
+    (hs : s.Before (showTagKeysText db qs op key c sf l o sl so ++ k)) :
+    wp (runHandler fuel .parseShowTagKeysStatement) s
+      (fun st s' => st = .showTagKeys db (qs.map qualSrc) op key c sf l o sl so ∧ RT.Stand s' k) (· = .fuel) := by
+  have g6 : Follow (posText .SOFFSET so ++ k) [.EXACT, .CARDINALITY, .ON, .FROM, .COMMA, .WITH, .WHERE, .ORDER, .LIMIT, .OFFSET,
+      .SLIMIT] := Follow.opt (kwText_pos _ _) (by decide +kernel) rfl (by decide) (hk.mono (by decide))
+  have g5 : Follow (posText .SLIMIT sl ++ (posText .SOFFSET so ++ k)) [.EXACT, .CARDINALITY, .ON, .FROM, .COMMA, .WITH, .WHERE,
+      .ORDER, .LIMIT, .OFFSET] := Follow.opt (kwText_pos _ _) (by decide +kernel) rfl (by decide) (g6.mono (by decide))
+  have g4 : Follow (posText .OFFSET o ++ (posText .SLIMIT sl ++ (posText .SOFFSET so ++ k))) [.EXACT, .CARDINALITY, .ON, .FROM,
+      .COMMA, .WITH, .WHERE, .ORDER, .LIMIT] :=
+    Follow.opt (kwText_pos _ _) (by decide +kernel) rfl (by decide) (g5.mono (by decide))
+  have g3 : Follow (posText .LIMIT l ++ (posText .OFFSET o ++ (posText .SLIMIT sl ++ (posText .SOFFSET so ++ k))))
+      [.EXACT, .CARDINALITY, .ON, .FROM, .COMMA, .WITH, .WHERE, .ORDER] :=
+    Follow.opt (kwText_pos _ _) (by decide +kernel) rfl (by decide) (g4.mono (by decide))
+  have gO : Follow (orderText sf ++ (posText .LIMIT l ++ (posText .OFFSET o ++ (posText .SLIMIT sl ++ (posText .SOFFSET so ++ k)))))
+      [.EXACT, .CARDINALITY, .ON, .FROM, .COMMA, .WITH, .WHERE] :=
+    Follow.opt (kwText_order _) (by decide +kernel) rfl (by decide) (g3.mono (by decide))
+  have g2 : Follow (whereText c ++ (orderText sf ++ (posText .LIMIT l ++ (posText .OFFSET o ++ (posText .SLIMIT sl ++
+      (posText .SOFFSET so ++ k)))))) [.EXACT, .CARDINALITY, .ON, .FROM, .COMMA, .WITH] :=
+    Follow.opt (kwText_where _) (by decide +kernel) rfl (by decide) (gO.mono (by decide))
+  have gW : Follow (optKeyText op key ++ (whereText c ++ (orderText sf ++ (posText .LIMIT l ++ (posText .OFFSET o ++
+      (posText .SLIMIT sl ++ (posText .SOFFSET so ++ k))))))) [.EXACT, .CARDINALITY, .ON, .FROM, .COMMA] := by
+    cases key with
+    | none => exact g2.mono (by decide)
+    | some key => exact Follow.opt (kwText_withKey op key) (by decide +kernel) rfl (by decide) (g2.mono (by decide))
+  have gF : Follow (fromQualsText qs ++ (optKeyText op key ++ (whereText c ++ (orderText sf ++ (posText .LIMIT l ++
+      (posText .OFFSET o ++ (posText .SLIMIT sl ++ (posText .SOFFSET so ++ k)))))))) [.EXACT, .CARDINALITY, .ON] :=
+    Follow.opt (kwText_fromQuals _) (by decide +kernel) rfl (by decide) (gW.mono (by decide))
+  have hs0 : RT.Stand s (onDbText db ++ (fromQualsText qs ++ (optKeyText op key ++ (whereText c ++ (orderText sf ++
+      (posText .LIMIT l ++ (posText .OFFSET o ++ (posText .SLIMIT sl ++ (posText .SOFFSET so ++ k))))))))) := by
+    have := hs.stand
+    simpa only [showTagKeysText, List.append_assoc] using this
+  obtain ⟨s3, h3, st3⟩ := parseOnDb_stand s db _ hexdb (gF.mono (by decide)) hs0
+  obtain ⟨f3, m3⟩ := tot_frame (fun _ => parseOnDb_tot) h3 hg
+  obtain ⟨s4, h4, st4⟩ := parseOptFrom_quals s3 qs _ hq (gW.mono (by decide)) st3
+  obtain ⟨f4, m4⟩ := tot_frame (fun _ => parseOptFrom_tot) h4 f3
+  -- the common tail
+  have tail : ∀ s6 : PState, RT.Same s s6 → RT.Stand s6 (whereText c ++ (orderText sf ++ (posText .LIMIT l ++ (posText .OFFSET o ++
+      (posText .SLIMIT sl ++ (posText .SOFFSET so ++ k)))))) →
+      wp (do
+        let cond ← parseCondition fuel
+        let sort ← parseOrderBy
+        let limit ← parseOptTokInt .LIMIT
+        let offset ← parseOptTokInt .OFFSET
+        let slimit ← parseOptTokInt .SLIMIT
+        let soffset ← parseOptTokInt .SOFFSET
+        pure (Statement.showTagKeys db (qs.map qualSrc) op key cond sort limit offset slimit soffset)) s6
+        (fun st s' => st = Statement.showTagKeys db (qs.map qualSrc) op key c sf l o sl so ∧ RT.Stand s' k)
+        (· = .fuel) := by
+    intro s6 m6 st6
+    have hc6 : CondOKW s6.lowerTbl c := by rw [m6.2]; exact hc
+    rw [wp_bind]
+    refine wp_mono (parseCondition_printW fuel s6 c _ hc6 (gO.mono (by decide)) st6) ?_ (fun _ h => h)
+    intro c' s7 ⟨hc', st7, _⟩
+    subst hc'
+    obtain ⟨s8, h8, st8⟩ := parseOrderBy_print s7 sf _ hsf (g3.mono (by decide)) st7
+    obtain ⟨s9, h9, st9⟩ := parseOptTokInt_print .LIMIT (by decide +kernel) s8 l _ hl.1 hl.2 (g4.mono (by decide)) st8
+    obtain ⟨s10, h10, st10⟩ := parseOptTokInt_print .OFFSET (by decide +kernel) s9 o _ ho.1 ho.2 (g5.mono (by decide)) st9
+    obtain ⟨s11, h11, st11⟩ := parseOptTokInt_print .SLIMIT (by decide +kernel) s10 sl _ hsl.1 hsl.2 (g6.mono (by decide))
+      st10
+    obtain ⟨s12, h12, st12⟩ := parseOptTokInt_print .SOFFSET (by decide +kernel) s11 so k hso.1 hso.2 (hk.mono (by decide))
+      st11
+    rw [wp_bind, wp_of_run_ok h8, wp_bind, wp_of_run_ok h9, wp_bind, wp_of_run_ok h10, wp_bind, wp_of_run_ok h11,
+      wp_bind, wp_of_run_ok h12, wp_pure]
+    exact ⟨rfl, st12⟩
+  simp only [runHandler, parseShowTagKeys]
+  rw [wp_bind, wp_of_run_ok h3, wp_bind, wp_of_run_ok h4]
+  cases key with
+  | none =>
+    have hop : op = .ILLEGAL := by simpa [optKeyOKB] using hkey
+    subst hop
+    obtain ⟨lx, s5, h5, t5, st5⟩ := peek_stand s4 _ _ .WITH g2 (by decide)
+      (by simpa only [optKeyText, List.nil_append] using st4)
+    rw [wp_bind, wp_of_run_ok h5, wp_bind, unscan_wp]
+    simp only [t5, if_false, pure_bind]
+    obtain ⟨_, m5⟩ := peek_frame .WITH h5 t5 f4
+    exact tail (unsc s5) ((m3.trans m4).trans m5) st5
+  | some key =>
+    have hst : RT.Starts (withKeyText op key ++ (whereText c ++ (orderText sf ++ (posText .LIMIT l ++ (posText .OFFSET o ++
+        (posText .SLIMIT sl ++ (posText .SOFFSET so ++ k))))))) .WITH := by
+      have := starts_kw .WITH (' ' :: (Token.KEY.str ++ ' ' :: (op.str ++ ' ' :: (tagKeyValText key ++ (whereText c ++
+        (orderText sf ++ (posText .LIMIT l ++ (posText .OFFSET o ++ (posText .SLIMIT sl ++ (posText .SOFFSET so ++ k))))))))))
+        (by decide +kernel) (WordEnd.blank _)
+      simpa only [withKeyText, List.append_assoc, List.cons_append] using this
+    obtain ⟨lx, s5, h5, t5, st5, _⟩ := RT.scanIW_starts s4 _ .WITH st4 hst
+    obtain ⟨f5, m5⟩ := peek_frame .EXACT h5 (by rw [t5]; decide) f4
+    obtain ⟨s6, h6, b6⟩ := parseTagKeyExpr_print (unsc s5) op key _ hkey g2.tokEnd.1 st5
+    obtain ⟨_, m6⟩ := tot_frame (fun _ => parseTagKeyExpr_tot) h6 f5
+    rw [wp_bind, wp_of_run_ok h5, wp_bind, unscan_wp]
+    simp only [t5, if_true]
+    rw [wp_bind, wp_bind, wp_of_run_ok h6]
+    dsimp only
+    rw [wp_pure]
+    exact tail s6 (((m3.trans m4).trans m5).trans m6) b6.stand
+
+section cardinalityW
+variable (db : Str) (qs : List (Str × Str × Str)) (c : Option Expr) (ds : List Expr) (l o : Int) (k : Str)
+
+
+/-- `cardBody_print` with a condition of the wide class; `s0` is the state the statement started in. -/
+theorem cardBody_printW (fuel : Nat) (s0 s : PState) (C : Str → List Source → Option Expr → List Expr → Int → Int → Statement)
+    (hexdb : Expressible db) (hq : ∀ m ∈ qs, QualOK m)
+    (hg : Fr s) (hsame : RT.Same s0 s) (hc : CondOKW s0.lowerTbl c)
+    (hds : ∀ x ∈ ds, RT.rtOK false x = true) (hl : 0 ≤ l ∧ l ≤ maxInt64) (ho : 0 ≤ o ∧ o ≤ maxInt64)
+    (hk : Follow k cardStop)
+    (hs : RT.Stand s (onDbText db ++ (fromQualsText qs ++ (whereText c ++ (groupText ds ++ (posText .LIMIT l ++
+      (posText .OFFSET o ++ k))))))) :
+    wp (do
+      let db ← parseOnDb
+      let sources ← parseOptFrom
+      let cond ← parseCondition fuel
+      let dims ← parseDimensions fuel
+      let limit ← parseOptTokInt .LIMIT
+      let offset ← parseOptTokInt .OFFSET
+      pure (C db sources cond dims limit offset)) s
+      (fun st s' => st = C db (qs.map qualSrc) c ds l o ∧ RT.Stand s' k) (· = .fuel) := by
+  obtain ⟨_, _, _, g2⟩ := cardRest_follow c ds l o k hk
+  obtain ⟨gF, _⟩ := card_follow db qs c ds l o k hk
+  obtain ⟨s3, h3, st3⟩ := parseOnDb_stand s db _ hexdb (gF.mono (by decide)) hs
+  obtain ⟨s4, h4, st4⟩ := parseOptFrom_quals s3 qs _ hq (g2.mono (by decide)) st3
+  obtain ⟨f3, m3⟩ := tot_frame (fun _ => parseOnDb_tot) h3 hg
+  obtain ⟨_, m4⟩ := tot_frame (fun _ => parseOptFrom_tot) h4 f3
+  have hc4 : CondOKW s4.lowerTbl c := by rw [((hsame.trans m3).trans m4).2]; exact hc
+  rw [wp_bind, wp_of_run_ok h3, wp_bind, wp_of_run_ok h4]
+  exact cardRest_printW fuel s4 (C db (qs.map qualSrc)) c ds l o k hc4 hds hl ho hk st4
+
+variable (ex : Bool)
+
+/-- `showSeriesCardinality_print_parse_partial` with a condition of the wide class. -/
+theorem showSeriesCardinality_print_parse_wide_partial (fuel : Nat) (s : PState)
+    (hexdb : Expressible db) (hq : ∀ m ∈ qs, QualOK m)
+    (hg : Fr s) (hc : CondOKW s.lowerTbl c)
+    (hds : ∀ x ∈ ds, RT.rtOK false x = true) (hl : 0 ≤ l ∧ l ≤ maxInt64) (ho : 0 ≤ o ∧ o ≤ maxInt64)
+    (hk : Follow k cardStop) (hs : s.Before (exactCardText ex ++ cardText db qs c ds l o ++ k)) :
+    wp (runHandler fuel .parseShowSeriesStatement) s
+      (fun st s' => st = .showSeriesCardinality db ex (qs.map qualSrc) c ds l o ∧ RT.Stand s' k) (· = .fuel) := by
+  obtain ⟨_, g0⟩ := card_follow db qs c ds l o k hk
+  have hs0 : s.Before (exactText ex ++ (' ' :: (Token.CARDINALITY.str ++ (onDbText db ++ (fromQualsText qs ++ (whereText c ++
+      (groupText ds ++ (posText .LIMIT l ++ (posText .OFFSET o ++ k))))))))) := by
+    simpa only [exactCardText, cardText, List.append_assoc, List.cons_append] using hs
+  obtain ⟨s1, h1, b1⟩ := optExact_print s ex _ g0.tokEnd.1 hs0.around
+  obtain ⟨s2, h2, b2⟩ := optTok_piece s1 [' '] Token.CARDINALITY.str _ .CARDINALITY [] Gap.blank b1
+    (scansAs_kw .CARDINALITY _ (by decide +kernel) g0.tokEnd.1)
+  obtain ⟨f1, m1⟩ := tot_frame (fun _ => optTok_tot .EXACT) h1 hg
+  obtain ⟨f2, m2⟩ := tot_frame (fun _ => optTok_tot .CARDINALITY) h2 f1
+  simp only [runHandler, parseShowSeries]
+  rw [wp_bind, wp_of_run_ok h1, wp_bind, wp_of_run_ok h2]
+  simp only [if_true]
+  exact cardBody_printW db qs c ds l o k fuel s s2 (fun db ss c ds l o => .showSeriesCardinality db ex ss c ds l o)
+    hexdb hq f2 (m1.trans m2) hc hds hl ho hk b2.stand
+
+/-- `showMeasurementCardinality_print_parse_partial` with a condition of the wide class. -/
+theorem showMeasurementCardinality_print_parse_wide_partial (fuel : Nat) (s : PState)
+    (hexdb : Expressible db) (hq : ∀ m ∈ qs, QualOK m)
+    (hg : Fr s) (hc : CondOKW s.lowerTbl c)
+    (hds : ∀ x ∈ ds, RT.rtOK false x = true) (hl : 0 ≤ l ∧ l ≤ maxInt64) (ho : 0 ≤ o ∧ o ≤ maxInt64)
+    (hk : Follow k cardStop)
+    (hs : s.Before ((if ex then ' ' :: Token.CARDINALITY.str else []) ++ cardText db qs c ds l o ++ k)) :
+    wp (runHandler fuel (if ex then .parseShowMeasurementCardinalityStatement_true
+        else .parseShowMeasurementCardinalityStatement_false)) s
+      (fun st s' => st = .showMeasurementCardinality ex db (qs.map qualSrc) c ds l o ∧ RT.Stand s' k) (· = .fuel) := by
+  obtain ⟨_, g0⟩ := card_follow db qs c ds l o k hk
+  cases ex with
+  | true =>
+    have hs0 : s.Before ([' '] ++ (Token.CARDINALITY.str ++ (onDbText db ++ (fromQualsText qs ++ (whereText c ++
+        (groupText ds ++ (posText .LIMIT l ++ (posText .OFFSET o ++ k)))))))) := by
+      simpa only [cardText, if_true, List.append_assoc, List.cons_append, List.nil_append] using hs
+    obtain ⟨s2, h2, b2⟩ := expectTok_piece s [' '] Token.CARDINALITY.str _ .CARDINALITY [] ["CARDINALITY"] Gap.blank
+      hs0.around (scansAs_kw .CARDINALITY _ (by decide +kernel) g0.tokEnd.1)
+    obtain ⟨f2, m2⟩ := tot_frame (fun _ => expectTok_tot .CARDINALITY ["CARDINALITY"]) h2 hg
+    simp only [if_true, runHandler, parseShowMeasurementCardinality]
+    rw [wp_bind, wp_of_run_ok h2]
+    exact cardBody_printW db qs c ds l o k fuel s s2 (fun db ss c ds l o => .showMeasurementCardinality true db ss c ds l o)
+      hexdb hq f2 m2 hc hds hl ho hk b2.stand
+  | false =>
+    have hs0 : s.Before (onDbText db ++ (fromQualsText qs ++ (whereText c ++
+        (groupText ds ++ (posText .LIMIT l ++ (posText .OFFSET o ++ k)))))) := by
+      simpa only [cardText, Bool.false_eq_true, if_false, List.append_assoc, List.nil_append] using hs
+    simp only [Bool.false_eq_true, if_false, runHandler, parseShowMeasurementCardinality]
+    exact cardBody_printW db qs c ds l o k fuel s s (fun db ss c ds l o => .showMeasurementCardinality false db ss c ds l o)
+      hexdb hq hg (RT.Same.refl s) hc hds hl ho hk hs0.stand
+
+/-- `showKeyCardinality_print_parse_partial` with a condition of the wide class. -/
+theorem showKeyCardinality_print_parse_wide_partial (fuel : Nat) (s : PState)
+    (hexdb : Expressible db) (hq : ∀ m ∈ qs, QualOK m)
+    (hg : Fr s) (hc : CondOKW s.lowerTbl c)
+    (hds : ∀ x ∈ ds, RT.rtOK false x = true) (hl : 0 ≤ l ∧ l ≤ maxInt64) (ho : 0 ≤ o ∧ o ≤ maxInt64)
+    (hk : Follow k cardStop) (hs : s.Before (exactCardText ex ++ cardText db qs c ds l o ++ k)) :
+    wp (runHandler fuel .parseShowTagKeyCardinalityStatement) s
+      (fun st s' => st = .showTagKeyCardinality db ex (qs.map qualSrc) c ds l o ∧ RT.Stand s' k) (· = .fuel) ∧
+    wp (runHandler fuel .parseShowFieldKeyCardinalityStatement) s
+      (fun st s' => st = .showFieldKeyCardinality db ex (qs.map qualSrc) c ds l o ∧ RT.Stand s' k) (· = .fuel) := by
+  obtain ⟨_, g0⟩ := card_follow db qs c ds l o k hk
+  have hs0 : s.Before (exactText ex ++ (' ' :: (Token.CARDINALITY.str ++ (onDbText db ++ (fromQualsText qs ++ (whereText c ++
+      (groupText ds ++ (posText .LIMIT l ++ (posText .OFFSET o ++ k))))))))) := by
+    simpa only [exactCardText, cardText, List.append_assoc, List.cons_append] using hs
+  obtain ⟨s2, h2, b2⟩ := parseExactCardinality_print ex s _ g0.tokEnd.1 hs0
+  obtain ⟨f2, m2⟩ := tot_frame (fun _ => parseExactCardinality_tot) h2 hg
+  constructor
+  · simp only [runHandler, parseShowTagKeyCardinality]
+    rw [wp_bind, wp_of_run_ok h2]
+    exact cardBody_printW db qs c ds l o k fuel s s2 (fun db ss c ds l o => .showTagKeyCardinality db ex ss c ds l o)
+      hexdb hq f2 m2 hc hds hl ho hk b2.stand
+  · simp only [runHandler, parseShowFieldKeyCardinality]
+    rw [wp_bind, wp_of_run_ok h2]
+    exact cardBody_printW db qs c ds l o k fuel s s2 (fun db ss c ds l o => .showFieldKeyCardinality db ex ss c ds l o)
+      hexdb hq f2 m2 hc hds hl ho hk b2.stand
+
+end cardinalityW
+
+/-- A token delivery by `ScanIgnoreWhitespace` keeps the frame. -/
+theorem scan_frame {s : PState} {lx : Lexeme} {s1 : PState} (h : scanIW.run s = .ok (lx, s1)) (hs : Fr s) :
+    Fr s1 ∧ RT.Same s s1 := by
+  refine tot_frame (m := expectTok lx.tok []) (fun _ => expectTok_tot _ _) (a := ()) ?_ hs
+  unfold expectTok
+  rw [P.run_bind _ _ s lx s1 h]
+  simp only [ne_eq, not_true_eq_false, if_false]
+  rfl
+
+section cardinalityW2
+variable (db : Str) (qs : List (Str × Str × Str)) (c : Option Expr) (ds : List Expr) (l o : Int) (k : Str) (ex : Bool)
+
+/-- `showTagValuesCardinality_print_parse_partial` with a condition of the wide class. -/
+theorem showTagValuesCardinality_print_parse_wide_partial (fuel : Nat) (s : PState) (op : Token) (key : Expr)
+    (hexdb : Expressible db) (hq : ∀ m ∈ qs, QualOK m) (hkey : tagKeyOKB op key = true)
+    (hg : Fr s) (hc : CondOKW s.lowerTbl c)
+    (hds : ∀ x ∈ ds, RT.rtOK false x = true) (hl : 0 ≤ l ∧ l ≤ maxInt64) (ho : 0 ≤ o ∧ o ≤ maxInt64)
+    (hk : Follow k cardStop) (hs : s.Before (exactCardText ex ++ cardKeyText db qs op key c ds l o ++ k)) :
+    wp (runHandler fuel .parseShowTagValuesStatement) s
+      (fun st s' => st = .showTagValuesCardinality db ex (qs.map qualSrc) op (some key) c ds l o ∧ RT.Stand s' k)
+      (· = .fuel) := by
+  obtain ⟨_, _, _, g2⟩ := cardRest_follow c ds l o k hk
+  have gW : Follow (withKeyText op key ++ (whereText c ++ (groupText ds ++ (posText .LIMIT l ++ (posText .OFFSET o ++ k)))))
+      [.EXACT, .CARDINALITY, .ON, .FROM, .COMMA] :=
+    Follow.opt (kwText_withKey op key) (by decide +kernel) rfl (by decide) (g2.mono (by decide))
+  have gF : Follow (fromQualsText qs ++ (withKeyText op key ++ (whereText c ++ (groupText ds ++ (posText .LIMIT l ++
+      (posText .OFFSET o ++ k)))))) [.EXACT, .CARDINALITY, .ON] :=
+    Follow.opt (kwText_fromQuals _) (by decide +kernel) rfl (by decide) (gW.mono (by decide))
+  have g0 : Follow (onDbText db ++ (fromQualsText qs ++ (withKeyText op key ++ (whereText c ++ (groupText ds ++
+      (posText .LIMIT l ++ (posText .OFFSET o ++ k))))))) [.EXACT, .CARDINALITY] :=
+    Follow.opt (kwText_onDb _) (by decide +kernel) rfl (by decide) (gF.mono (by decide))
+  -- the clauses after `[EXACT] CARDINALITY`, from a state before them
+  have body : ∀ (s2 : PState), Fr s2 → RT.Same s s2 → s2.Before (onDbText db ++ (fromQualsText qs ++ (withKeyText op key ++ (whereText c ++
+      (groupText ds ++ (posText .LIMIT l ++ (posText .OFFSET o ++ k))))))) →
+      wp (do
+        let db ← parseOnDb
+        let sources ← parseOptFrom
+        let (op, key) ← parseTagKeyExpr
+        let cond ← parseCondition fuel
+        let dims ← parseDimensions fuel
+        let limit ← parseOptTokInt .LIMIT
+        let offset ← parseOptTokInt .OFFSET
+        pure (Statement.showTagValuesCardinality db ex sources op (some key) cond dims limit offset)) s2
+        (fun st s' => st = Statement.showTagValuesCardinality db ex (qs.map qualSrc) op (some key) c ds l o ∧
+          RT.Stand s' k)
+        (· = .fuel) := by
+    intro s2 f2 m2 b2
+    obtain ⟨s3, h3, st3⟩ := parseOnDb_stand s2 db _ hexdb (gF.mono (by decide)) b2.stand
+    obtain ⟨f3, m3⟩ := tot_frame (fun _ => parseOnDb_tot) h3 f2
+    obtain ⟨s4, h4, st4⟩ := parseOptFrom_quals s3 qs _ hq (gW.mono (by decide)) st3
+    obtain ⟨f4, m4⟩ := tot_frame (fun _ => parseOptFrom_tot) h4 f3
+    obtain ⟨s5, h5, b5⟩ := parseTagKeyExpr_print s4 op key _ hkey g2.tokEnd.1 st4
+    obtain ⟨_, m5⟩ := tot_frame (fun _ => parseTagKeyExpr_tot) h5 f4
+    have hc5 : CondOKW s5.lowerTbl c := by rw [(((m2.trans m3).trans m4).trans m5).2]; exact hc
+    rw [wp_bind, wp_of_run_ok h3, wp_bind, wp_of_run_ok h4, wp_bind, wp_of_run_ok h5]
+    dsimp only
+    exact cardRest_printW fuel s5 (fun c ds l o => .showTagValuesCardinality db ex (qs.map qualSrc) op (some key) c ds l o)
+      c ds l o k hc5 hds hl ho hk b5.stand
+  cases ex with
+  | true =>
+    have hs0 : s.Before ([' '] ++ (Token.EXACT.str ++ (' ' :: (Token.CARDINALITY.str ++ (onDbText db ++ (fromQualsText qs ++
+        (withKeyText op key ++ (whereText c ++ (groupText ds ++ (posText .LIMIT l ++ (posText .OFFSET o ++ k)))))))))))
+        := by
+      simpa only [exactCardText, exactText, cardKeyText, if_true, List.append_assoc, List.cons_append, List.nil_append]
+        using hs
+    obtain ⟨lx, s1, h1, t1, _, b1⟩ := scanIW_piece s [' '] Token.EXACT.str _ .EXACT [] Gap.blank hs0.around
+      (scansAs_kw .EXACT _ (by decide +kernel) (WordEnd.blank _))
+    obtain ⟨s2, h2, b2⟩ := expectTok_piece s1 [' '] Token.CARDINALITY.str _ .CARDINALITY [] ["CARDINALITY"] Gap.blank
+      b1.around (scansAs_kw .CARDINALITY _ (by decide +kernel) g0.tokEnd.1)
+    simp only [runHandler, parseShowTagValues]
+    rw [wp_bind, wp_of_run_ok h1]
+    simp only [t1, if_true, parseShowTagValuesCardinality]
+    rw [wp_bind, wp_of_run_ok h2]
+    obtain ⟨f1, m1⟩ := scan_frame h1 hg
+    obtain ⟨f2, m2⟩ := tot_frame (fun _ => expectTok_tot .CARDINALITY ["CARDINALITY"]) h2 f1
+    exact body s2 f2 (m1.trans m2) b2
+  | false =>
+    have hs0 : s.Before ([' '] ++ (Token.CARDINALITY.str ++ (onDbText db ++ (fromQualsText qs ++
+        (withKeyText op key ++ (whereText c ++ (groupText ds ++ (posText .LIMIT l ++ (posText .OFFSET o ++ k)))))))))
+        := by
+      simpa only [exactCardText, exactText, cardKeyText, Bool.false_eq_true, if_false, List.append_assoc,
+        List.cons_append, List.nil_append] using hs
+    obtain ⟨lx, s1, h1, t1, _, b1⟩ := scanIW_piece s [' '] Token.CARDINALITY.str _ .CARDINALITY [] Gap.blank hs0.around
+      (scansAs_kw .CARDINALITY _ (by decide +kernel) g0.tokEnd.1)
+    simp only [runHandler, parseShowTagValues]
+    rw [wp_bind, wp_of_run_ok h1]
+    simp only [t1, reduceCtorEq, if_false, if_true, parseShowTagValuesCardinality, Bool.false_eq_true]
+    obtain ⟨f1, m1⟩ := scan_frame h1 hg
+    exact body s1 f1 m1 b1
+
+end cardinalityW2
+
+/-- Non-vacuity of the wide variants: `… WHERE time > now() - 90m AND value >= 1.5`. -/
+def exCondW : Option Expr := some (.binary .AND
+  (.binary .GT (.varRef "time".toList .Unknown) (.binary .SUB (.call "now".toList []) (.duration 5400000000000)))
+  (.binary .GTE (.varRef "value".toList .Unknown) (.number ⟨false, 15, 1⟩)))
+def exTagValuesTextW : Str := showTagValuesText [] exQs .EQ (.string "host".toList) exCondW exSort 10 0
+def exMeasTextW : Str := showMeasText [] [] true false (.name "cpu".toList) exCondW [] 0 0
+def exCardTextW : Str := exactCardText true ++ cardText "my db".toList exQs exCondW exDims 10 3
+
+example : exTagValuesTextW = (" FROM \"my db\"..cpu, rp.m, m WITH KEY = host WHERE time > now() - 90m AND value >= 1.5 " ++
+      "ORDER BY time DESC LIMIT 10").toList ∧
+    exMeasTextW = " ON * WITH MEASUREMENT = cpu WHERE time > now() - 90m AND value >= 1.5".toList ∧
+    exCardTextW = (" EXACT CARDINALITY ON \"my db\" FROM \"my db\"..cpu, rp.m, m WHERE time > now() - 90m AND value >= 1.5 " ++
+      "GROUP BY host, \"my tag\" LIMIT 10 OFFSET 3").toList := by decide +kernel
+
+example : CondOKW [] exCondW ∧ ¬ CondOK exCondW := by decide +kernel
+
+section
+attribute [local irreducible] wp
+example : wp (runHandler 200 .parseShowTagValuesStatement) (PState.init exTagValuesTextW [] [])
+    (fun st s' => st = .showTagValues [] (exQs.map qualSrc) .EQ (some (.string "host".toList)) exCondW exSort 10 0 ∧
+      RT.Stand s' [eofRune]) (· = .fuel) :=
+  showTagValues_print_parse_wide_partial 200 (PState.init exTagValuesTextW [] []) [] exQs .EQ (.string "host".toList) exCondW
+    exSort 10 0 [eofRune] (by decide +kernel) (by decide +kernel) (by decide +kernel) (Fr.init _ _ _)
+    (show CondOKW [] exCondW by decide +kernel) (by decide +kernel) (by decide) (by decide) (Follow.eof _ (by decide))
+    (init_before exTagValuesTextW (by decide +kernel))
+
+example : wp (runHandler 200 .parseShowMeasurementsStatement) (PState.init exMeasTextW [] [])
+    (fun st s' => st = .showMeasurements [] [] true false (some (nameSrc "cpu".toList)) exCondW [] 0 0 ∧
+      RT.Stand s' [eofRune]) (· = .fuel) :=
+  showMeasurements_full_print_parse_wide_partial 200 (PState.init exMeasTextW [] []) [] [] true false (.name "cpu".toList)
+    exCondW [] 0 0 [eofRune] (by decide +kernel) (by decide +kernel) (by decide +kernel) (by decide +kernel) (Fr.init _ _ _)
+    (show CondOKW [] exCondW by decide +kernel) (by decide +kernel) (by decide) (by decide) (Follow.eof _ (by decide))
+    (init_before exMeasTextW (by decide +kernel))
+
+example : wp (runHandler 200 .parseShowSeriesStatement) (PState.init exCardTextW [] [])
+    (fun st s' => st = .showSeriesCardinality "my db".toList true (exQs.map qualSrc) exCondW exDims 10 3 ∧
+      RT.Stand s' [eofRune]) (· = .fuel) :=
+  showSeriesCardinality_print_parse_wide_partial "my db".toList exQs exCondW exDims 10 3 [eofRune] true 200
+    (PState.init exCardTextW [] []) (by decide +kernel) (by decide +kernel) (Fr.init _ _ _)
+    (show CondOKW [] exCondW by decide +kernel) (by decide +kernel) (by decide) (by decide) (Follow.eof _ (by decide))
+    (init_before exCardTextW (by decide +kernel))
+end
+
+example : (match (runHandler 200 .parseShowTagValuesStatement).run (PState.init exTagValuesTextW [] []) with
+    | .ok _ => true
+    | .error _ => false) = true := by decide +kernel
+
 end InfluxQL.C02
